@@ -270,9 +270,20 @@ def check_postprocessing(ctx):
     ctx.anchor("C10.M", "post-processing table entries", n_entries, 24)
     # without post-processing the raw outcome is returned unchanged (evaluated above for every state and basis)
     ctx.check("C10.M", "measurement_outcome:raw-when-not-post-processing", raw_when_off, "measurement_outcome does not return the raw outcome when post_process is off", emr.loc(mo))
-    bs = emr.methods.get("bell_state")
-    ok = bs is not None and any(A.norm(r.value) == "BellState(self.raw_bell_state.value)" for r in A.returns(bs))
-    ctx.check("C10.M", "EprMeasureResult.bell_state:from-own-raw-bell-state", ok, "bell_state is not BellState(self.raw_bell_state.value)", emr.loc(bs) if bs else "", trivial=True)
+    # bell_state, executed for every member: the member whose value the object's own raw_bell_state holds (wherever in the bases the property lives)
+    rb = repo.lookup(emr, "bell_state")
+    bs = rb[1] if rb is not None else None
+    ok = bs is not None
+    if ok:
+        try:
+            for sname in bsm:
+                o_ = C.Obj(emr, {"raw_bell_state": C.Obj(None, {"value": bsm[sname]}), "post_process": False, "raw_measurement_outcome": 0}, "self")
+                got_ = C.Interp(repo, ev, C.Scenario(), emr).getattr(o_, "bell_state")
+                if not (isinstance(got_, EnumMember) and got_.name == sname and got_.enum == bsc.qualname):
+                    ok = False
+        except (AnalysisError, C.EvalRaise):
+            ok = False
+    ctx.check("C10.M", "EprMeasureResult.bell_state:from-own-raw-bell-state", ok, "bell_state is not the BellState member of the object's own raw_bell_state value", emr.loc(bs) if bs else "", trivial=True)
     # the basis that decides the flip is the local one: with different local / remote bases no post-processed outcome is handed out
     mixed = []
     try:
